@@ -176,6 +176,11 @@ def r2(ctx, F, eff):
                 for pb, o in capture_origins(F, body, a):
                     roots |= root_of(F, pb, o)
             short = c.split('::')[-1]
+            if not roots and c in F.bodies:
+                # a crate function that takes no path at all (a phase function handed a context struct): which tree it mutates is
+                # decided by what it does with the fields of that struct - not followed
+                ctx.undecided('C04.R2', 'run_local calls %s, which mutates the file system, without handing it a path: the paths it uses are not followed' % short)
+                continue
             if short == 'deliver_local':
                 ok = roots == {'src', 'dst'}      # (source file read, destination written): checked precisely in C04.R1/C09.R1
             else:
